@@ -102,7 +102,18 @@ func drawCorruption(s *sim.Src, img []byte, prev []byte) corruption {
 				levels++
 			}
 			src := p.No
-			return corruption{"dag-tower", fmt.Sprintf("interior page %d (fan-out %d): %d copies appended, every child pointer of a level leads to the next level, the last level to the original children", src, f, levels), func(im []byte) []byte {
+			// half of the towers end in one shared EMPTY leaf: nothing is ever found there, so
+			// point lookups wander through every branch too (a found row would stop them)
+			emptyLeaf := s.Chance(1, 2, "tower-ends-in-empty-leaf")
+			leafType := byte(0x0d)
+			if p.Type == 0x02 {
+				leafType = 0x0a
+			}
+			ending := "the original children"
+			if emptyLeaf {
+				ending = "one shared empty leaf"
+			}
+			return corruption{"dag-tower", fmt.Sprintf("interior page %d (fan-out %d): %d copies appended, every child pointer of a level leads to the next level, the last level to %s", src, f, levels, ending), func(im []byte) []byte {
 				if src*u > len(im) {
 					return im
 				}
@@ -111,19 +122,27 @@ func drawCorruption(s *sim.Src, img []byte, prev []byte) corruption {
 				orig := append([]byte(nil), im[(src-1)*u:src*u]...)
 				for i := 1; i <= levels; i++ {
 					cp := append([]byte(nil), orig...)
-					if i < levels {
+					if i < levels || emptyLeaf {
 						for _, o := range offs {
 							copy(cp[o:], be32(uint32(n0+i+1)))
 						}
 					}
 					out = append(out, cp...)
 				}
+				extra := 0
+				if emptyLeaf {
+					leaf := make([]byte, u)
+					leaf[0] = leafType
+					binary.BigEndian.PutUint16(leaf[5:7], uint16(u%65536)) // cell content area starts at the end of the page
+					out = append(out, leaf...)
+					extra = 1
+				}
 				for _, o := range offs {
 					copy(out[(src-1)*u+o:], be32(uint32(n0+1)))
 				}
 				// in-header database size, so that the new pages are inside the file for everybody
 				if len(out) >= 100 {
-					binary.BigEndian.PutUint32(out[28:32], uint32(n0+levels))
+					binary.BigEndian.PutUint32(out[28:32], uint32(n0+levels+extra))
 				}
 				return out
 			}}
